@@ -11,6 +11,7 @@ from engine.util import own_nodes, calls_with_nodes, where
 from rules.c14 import Tokenizer
 
 RULES = {
+    "R-15.12": "a defaulting block only computes the default: in dns.dnssec an `if <parameter> is None:` whose body assigns that parameter contains no bare call statement and no loop - work placed there (publishing the DNSKEY RRset) is done only when the caller left the value out, so sign_zone(..., dnskey_ttl=7200) signs a zone without DNSKEYs and the apex NSEC bitmap lacks the DNSKEY bit",
     "R-15.11": "a normalised copy replaces its source: where a function of dns.dnssec fills a fresh local collection inside `for x in <parameter>` with the element x after rebinding it (the caller's algorithms turned into DSDigest members), the parameter is not read again after that loop - the raw value (a set of strings) does not contain the normalised items, so a membership test against it silently drops every CDS digest",
     "R-15.10": "the origin is data, not text to be normalised: no to_wire / _to_wire / to_digestable of dns.name, dns.rdata, dns.rdataset, dns.rrset and dns.rdtypes.* rebinds its `origin` parameter - only the types of RFC 4034 6.2 lower-case embedded names, and they do it label by label under `canonicalize`; an origin folded up front changes the canonical form of NSEC, HIP, LP, ... records that store names relative",
     "R-15.9": "exact bitmaps at delegation points (RFC 4035 2.3): the NSEC of a delegation point lists NS and DS (plus RRSIG and NSEC) only - the type filter of _txn_add_nsec, evaluated by the checker for delegated in {False, True} and types {A, NS, TXT, AAAA, DS}, keeps a type iff (not delegated or type in {NS, DS}); both call sites pass the delegation status of the name the NSEC is FOR (recorded after the call, from the walk's delegation marker alone)",
@@ -394,6 +395,24 @@ def run(model, rep, tier):
                       f"`{p11}` (the caller's raw value) is read after the loop that builds its normalised copy `{copies[0]}`: e.g. `digest_type in {p11}` never matches when the caller passed mnemonics, so DS records that the CDS RRset calls for are dropped",
                       stmt=f"normalised-copy of {p11}")
     rep.floor("R-15.11", n11, 1)
+    # ---------------------------------------------------------------- R-15.12
+    n12 = 0
+    for f12 in sorted(model.all_functions(), key=lambda g: g.qualname):
+        if f12.module.name != "dns.dnssec":
+            continue
+        params12 = set(f12.params())
+        for nd in ast.walk(f12.node):
+            if not isinstance(nd, ast.If):
+                continue
+            subj = [a_[0] for a_ in atoms(normalise_compare(nd.test)) if a_[1] == "is" and a_[2] == "None" and a_[0] in params12]
+            if len(subj) != 1 or not any(isinstance(x, ast.Name) and x.id == subj[0] and isinstance(x.ctx, ast.Store) for b in nd.body for x in ast.walk(b)):
+                continue
+            n12 += 1
+            work = [x for b in nd.body for x in ast.walk(b) if isinstance(x, (ast.For, ast.While, ast.AsyncFor)) or (isinstance(x, ast.Expr) and isinstance(x.value, (ast.Call, ast.Await)))]
+            rep.check(not work, "R-15.12", f12.qualname, where(f12, work[0] if work else nd), f"`if {subj[0]} is None:` only computes the default",
+                      f"`{stmt_key(work[0])[:60] if work else ''}` sits inside `if {subj[0]} is None:`: it runs only when the caller did not give `{subj[0]}` - with an explicit value the step is skipped (e.g. the DNSKEY RRset is never added, so the signed zone has no keys "
+                      "and its apex NSEC lacks the DNSKEY bit)", stmt=f"defaulting {subj[0]}")
+    rep.floor("R-15.12", n12, 2)
     rep.assume("hashlib digests and base64.b32encode are trusted; numeric results (key tags, digests, bitmap octets) are not computed")
     bm = model.func("dns.rdtypes.util.Bitmap.from_rdtypes")
     sl = [x for x in ast.walk(bm.node) if isinstance(x, ast.Subscript) and isinstance(x.slice, ast.Slice) and isinstance(x.slice.upper, ast.Name) and src(x.slice.lower or ast.Constant(0)) in ("0", "None")]
@@ -426,6 +445,8 @@ def run(model, rep, tier):
 
 
 WITNESSES = [
+    {"id": "c15-dnskeys-added-only-when-ttl-defaulted", "rule": "R-15.12", "file": "dns/dnssec.py", "expect": "fires",
+     "old": "            for _, dnskey in keys:\n                _txn.add(zone.origin, dnskey_ttl, dnskey)", "new": "                for _, dnskey in keys:\n                    _txn.add(zone.origin, dnskey_ttl, dnskey)"},
     {"id": "c15-nsec-bitmap-ignores-delegation", "rule": "R-15.9", "file": "dns/dnssec.py", "expect": "fires",
      "old": "                        if not delegated or rdataset.rdtype in delegation_types\n", "new": ""},
     {"id": "c15-nsec-bitmap-filter-drops-ds", "rule": "R-15.9", "file": "dns/dnssec.py", "expect": "fires",
